@@ -33,6 +33,8 @@ Robust to (resolved, not pattern-matched):
     by evaluating the imported module;
   * local renames, temporaries, re-ordering of independent statements, docstrings, annotations, `-> None`, new
     parameters with defaults (bound to the default), prints, `logging`/logger calls with side-effect-free arguments;
+  * `f(a, b)` for a plain module-level function f that IS `int(a * b)` on a probe grid (evaluated: a product helper that
+    switches to exact integer arithmetic beyond the float range is such a function) is read as `int(a * b)`;
   * new methods that are never called from a region body (read-only getters, `__repr__`) are simply not visited.
 `self._record_transaction(...)` and `self._update_state()` stay mapped by name to the model's `record` /
 `updateStateO` (their bodies — the list trimming, the float classifier and the observer call — are tied by the
@@ -329,7 +331,24 @@ class Translator:
                 raise Unsupported("int(...) of something else than <int> * debt_interest")
             if f == "getattr" and len(n.args) == 2:
                 return self.self_attr(self.attr_target(n.args[0], n.args[1], st, fr), st)
+            if len(n.args) == 2 and self._is_int_product(f):
+                # a plain module-level function that IS int(a * b) (evaluated on a probe grid; it may only differ where the
+                # float product leaves the float range, which the model's exact arithmetic does not have)
+                return self.expr(ast.Call(func=ast.Name(id="int", ctx=ast.Load()),
+                                          args=[ast.BinOp(left=n.args[0], op=ast.Mult(), right=n.args[1])], keywords=[]), st, fr)
         raise Unsupported(f"expression {ast.unparse(n)[:60]}")
+
+    def _is_int_product(self, name) -> bool:
+        import types
+        f = getattr(self.src.module, name, None)
+        if not isinstance(f, types.FunctionType) or getattr(f, "__module__", None) != self.src.module.__name__:
+            return False
+        probes = [(0, 0.1), (1, 0.1), (7, 0.5), (10, 0.1), (30, 0.1), (10, 0.7), (99, 0.25), (1000, 1.0), (12345, 2.0),
+                  (3, 0.0), (10 ** 12 + 7, 0.1), (2 ** 53 + 3, 0.5), (2 ** 70 + 12345, 0.1), (17, 1), (17, 0)]
+        try:
+            return all(type(f(a, r)) is int and f(a, r) == int(a * r) for a, r in probes)
+        except Exception:  # noqa
+            return False
 
     def attr_target(self, obj, name, st, fr):
         if not (isinstance(obj, ast.Name) and obj.id == "self"):
